@@ -446,7 +446,7 @@ def classify_support(expr):
                 if not isinstance(g.target, ast.Name):
                     reasons.add("tuple target")
                     continue
-                if g.target.id in inner or g.target.id in seen_targets or g.target.id in RESERVED_NAMES:
+                if g.target.id in inner or g.target.id in RESERVED_NAMES:
                     reasons.add("loop variable re-uses a bound name")
                 inner.add(g.target.id)
                 seen_targets.add(g.target.id)
